@@ -36,11 +36,11 @@ func shapes(thorough bool) []*prog.Shape {
 			out = append(out, s)
 		}
 	}
-	base := prog.Enumerate(depth, leaves, 3)
+	grammar := prog.Enumerate(depth, leaves, 3)
 	if thorough {
-		base = append(base, prog.Enumerate(2, 3, 3)...)
+		grammar = append(grammar, prog.Enumerate(2, 3, 3)...)
 	}
-	for _, s := range base {
+	for _, s := range grammar {
 		if hasRepeated(s.Fields) {
 			continue
 		}
